@@ -476,10 +476,15 @@ async fn storm(ctx: Ctx, idx: u64) -> Report {
             )
         } else {
             let (bytes, class) = hostile.datagram(&mut rng);
-            let might_be_query = match refcodec::decode_prefix(&bytes) {
-                Ok((v, _)) => v.get("y").and_then(B::as_bytes).map(|y| y == b"q").unwrap_or(false),
-                Err(_) => false,
-            };
+            // A mutated query that the reference decoder refuses (malformed bencode) may still be
+            // decoded by a more lenient decoder; whether such a datagram is "undecodable" is the
+            // implementation's call, so anything that still carries a method key is ambiguous.
+            let carries_method_key = bytes.windows(3).any(|w| w == b"1:q");
+            let might_be_query = carries_method_key
+                || match refcodec::decode_prefix(&bytes) {
+                    Ok((v, _)) => v.get("y").and_then(B::as_bytes).map(|y| y == b"q").unwrap_or(false),
+                    Err(_) => false,
+                };
             let expect = if class == Class::Valid {
                 // a valid message of unknown kind: classify by the reference parser
                 match Krpc::parse(&bytes) {
